@@ -1226,6 +1226,6 @@ META = {
              "(covered by correspondence on shapes), planes_yx (search only), dtype selection.  Three defects were "
              "repaired in odc-geo (float ceil division, int32 offsets, negative indices of VariableSizedTiles); the "
              "models follow the repaired code and the witnesses are in corpus/C04."),
-    "technique": "Coq proof over hand-written Gallina model + exhaustive small-domain differential correspondence (vm_compute)",
+    "technique": "Coq proof over hand-written Gallina model + exhaustive small-domain differential correspondence (vm_compute) + Tiles arithmetic regenerated from source by py2v on every run and proved equal to the model (source_is_model theorem)",
     "design_ref": "DESIGN.md section 5, C04",
 }
